@@ -622,7 +622,7 @@ func (g *c18Gen) class() c18Node {
 			sb.WriteByte(e)
 			tbl[e] = true
 		default:
-			const lits = "abcxyz019_,:@#= ."
+			const lits = "abcxyz019_,:@#= .%&;"
 			c := lits[rng.IntN(len(lits))]
 			sb.WriteByte(c)
 			tbl[c] = true
@@ -648,7 +648,7 @@ func (g *c18Gen) atom(depth int) c18Node {
 	}
 	switch k := rng.IntN(20); {
 	case k < 9:
-		const lits = "abcxyz019 _-,:@#="
+		const lits = "abcxyz019 _-,:@#=%!&;<>~'`"
 		c := lits[rng.IntN(len(lits))]
 		return c18Lit(string(c), c)
 	case k < 12:
@@ -848,7 +848,7 @@ func c18Run(r *mon.Run) {
 	L := r.Pick(5, 7)
 	k := 0
 	if r.Shard == 0 { // edge texts first
-		for _, t := range []string{"", "/", "//", "/a/", "/\x7f/", "/\xff/", "/a\xff/", "\xff", "/\\", "/\\/", "/\\\\/", "/\\\\\\/", "/\\\\\\//", "/a{1000}/", "/a{1001}/", "/a/b/", "/[/]/"} {
+		for _, t := range []string{"", "/", "//", "/a/", "/\x7f/", "/\xff/", "/a\xff/", "\xff", "/\\", "/\\/", "/\\\\/", "/\\\\\\/", "/\\\\\\//", "/a{1000}/", "/a{1001}/", "/a/b/", "/[/]/", "/%/", "/%s/", "/%d%%/", "/^[0-9]+%$/", "/a%!b/", "/%v|%q/ ", "/[%]+x/", "/%[1]s/"} {
 			c18Text(r, t, nil, nil)
 		}
 	}
